@@ -30,6 +30,7 @@ type C10Case struct {
 	Dirs        [][]IncDir `json:"dirs"`
 	DepthLimit  int        `json:"depth_limit"` // 0 = default
 	Oversized   int        `json:"oversized"`   // file index made larger than the size limit, -1 none
+	Warm        bool       `json:"warm,omitempty"` // the loader has resolved the same root under the default limits before the case's limits are set
 	FromContent bool       `json:"from_content"`
 }
 
@@ -282,6 +283,13 @@ func c10Check(c *C10Case) []ev.Discrepancy {
 	ex := c10Reference(c)
 
 	l := include.NewLoader()
+	if c.Warm {
+		if c.FromContent {
+			_, _ = l.LoadFromContent(c10Path(root, 0), texts[0])
+		} else {
+			_, _ = l.Load(c10Path(root, 0))
+		}
+	}
 	lim := include.Limits{}
 	if c.DepthLimit > 0 {
 		lim.MaxIncludeDepth = c.DepthLimit
@@ -551,6 +559,9 @@ func genC10(t *rapid.T) *C10Case {
 		c.Oversized = rapid.IntRange(1, n-1).Draw(t, "big")
 	}
 	c.FromContent = rapid.Bool().Draw(t, "fromcontent")
+	if c.DepthLimit > 0 || c.Oversized >= 0 {
+		c.Warm = rapid.Bool().Draw(t, "warm")
+	}
 	return c
 }
 
